@@ -26,6 +26,9 @@
 (*                     with but its spectral density closes over the       *)
 (*                     original object: it answers with the original's     *)
 (*                     current parameter.                                  *)
+(* Deviation (must violate Isolation, not a finding):                      *)
+(*   "HandsOutOwn"   - Bath.correlations hands out the bath's own object   *)
+(*                     instead of a copy.                                  *)
 (***************************************************************************)
 EXTENDS Naturals, Sequences, FiniteSets, Json, TLC
 
@@ -90,6 +93,14 @@ BathAttr ==
     /\ hist' = Append(hist, Obs("battr", 0, bath))
     /\ UNCHANGED <<ver, memoC, bath, memoB>>
 
+\* x = b.correlations; x.alpha = <new value>: the object handed out by the bath is the caller's to change - the bath
+\* (and every computation prepared from it) keeps the parameter it was built with
+SetViaBath(v) ==
+    /\ NOps < MaxOps /\ bath # 0 /\ v # bath
+    /\ bath' = IF "HandsOutOwn" \in Devs THEN v ELSE bath
+    /\ hist' = Append(hist, Obs("setb", v, v))
+    /\ UNCHANGED <<ver, memoC, memoB>>
+
 \* the parameter the bath's copy computes with
 BathParam == IF "CopyClosure" \in Devs THEN ver ELSE bath
 
@@ -115,7 +126,7 @@ Use(k) ==
     /\ UNCHANGED <<ver, memoC, bath, memoB>>
 NextUse == \E k \in UseKinds : Use(k)
 
-Next == (\E v \in Versions : SetParam(v)) \/ Corr \/ (\E a \in Args : Eta(a)) \/ BuildBath \/ BathAttr \/ BathCorr \/ Compute
+Next == (\E v \in Versions : SetParam(v) \/ SetViaBath(v)) \/ Corr \/ (\E a \in Args : Eta(a)) \/ BuildBath \/ BathAttr \/ BathCorr \/ Compute
 Spec == Init /\ [][Next]_vars
 
 (***************************************************************************)
